@@ -4,7 +4,8 @@ C17 — specification side.
 
 `renderRef` is the *cache-less* meaning of rendering: there is no engine state at all, every
 template is read from the current files, the configured context overrides the caller's, an include
-sees the context, an import does not. The Bool checkers below compare ONE observation (the list
+sees the context, an import does not, an include with `ignore missing` of a file that is not
+there contributes nothing. The Bool checkers below compare ONE observation (the list
 of outcomes of the `render` operations of a history, or the list of allow-list decisions) with
 that reference; the driver evaluates them on what the real `JinjaEngine` produced, and
 `Theorems/C17.lean` proves that the engine model passes them for every history.
@@ -21,7 +22,7 @@ def refLookup (base caller : Ctx) (x : String) : String :=
     | some v => v
     | none => ""
 
-def refNodes (cfg : Cfg) (sub : Name → Ctx → Ctx → Outcome) (base caller : Ctx) :
+def refNodes (cfg : Cfg) (sub : Bool → Name → Ctx → Ctx → Outcome) (base caller : Ctx) :
     List Node → Outcome
   | [] => .ok ""
   | n :: rest =>
@@ -29,21 +30,24 @@ def refNodes (cfg : Cfg) (sub : Name → Ctx → Ctx → Outcome) (base caller :
       match n with
       | .text s => .ok s
       | .var x => .ok (refLookup base caller x)
-      | .incl t => sub t base caller
-      | .imp t => sub t [] []
+      | .incl t => sub false t base caller
+      | .inclOpt t => sub true t base caller
+      | .imp t => sub false t [] []
       | .py key => pyGet cfg.allow cfg.modules key
     match r with
     | .error e => .error e
     | .ok s => (refNodes cfg sub base caller rest).map (s ++ ·)
 
-/-- cache-less render of the current files -/
-def renderRef (cfg : Cfg) (fs : FS) : Nat → Name → Ctx → Ctx → Outcome
-  | 0, _, _, _ => .error .recursion
-  | fuel + 1, name, base, caller =>
+/-- cache-less render of the current files; `opt` = reached through an include with
+`ignore missing`: if this very file is not found the include renders as the empty string (any
+other failure, and any failure inside the file, is a failure of the whole render) -/
+def renderRef (cfg : Cfg) (fs : FS) : Nat → Bool → Name → Ctx → Ctx → Outcome
+  | 0, _, _, _, _ => .error .recursion
+  | fuel + 1, opt, name, base, caller =>
     match (getSource cfg fs name).toExcept with
-    | .error e => .error e
+    | .error e => onGetError opt e
     | .ok t =>
-      refNodes cfg (fun t' b c => renderRef cfg fs fuel (joinPath cfg.relative t' name) b c)
+      refNodes cfg (fun o t' b c => renderRef cfg fs fuel o (joinPath cfg.relative t' name) b c)
         base caller t
 
 /-- the outcomes a history must produce: every `render` is a cache-less render of the files as
@@ -53,7 +57,7 @@ def runRef (cfg : Cfg) (fuel : Nat) : FS → List Op → List Outcome
   | fs, .write p t s :: rest => runRef cfg fuel (fs.write p t s) rest
   | fs, .delete p :: rest => runRef cfg fuel (fs.delete p) rest
   | fs, .render name caller :: rest =>
-    renderRef cfg fs fuel name cfg.baseCtx caller :: runRef cfg fuel fs rest
+    renderRef cfg fs fuel false name cfg.baseCtx caller :: runRef cfg fuel fs rest
 
 /-! ### observations -/
 
